@@ -6,7 +6,7 @@ import (
 	"strings"
 )
 
-var reCounters = regexp.MustCompile(`^\[\d+\]int(32)?$`)
+var reCounters = regexp.MustCompile(`^\[\d*\]int(32)?$`)
 
 // fillObjects identifies the counters / Q-table objects and their dimensions.
 func fillObjects(d *wfDesc) string {
@@ -97,7 +97,8 @@ func seqErrorReturn(d *wfDesc) func(e *Event) bool {
 		}
 		errT := d.errOf(d.Read)
 		want := S.Canon(S.And(d.Read.Guard, S.Not(S.Cmp("==", errT, S.Nil))))
-		return r.Guard == S.SymTerm(ex.Sym) && S.Equivalent(ex.Guard, want)
+		pe := posExits(S, d.Sum, r.Guard)
+		return len(pe) == 1 && pe[0] == ex && S.Equivalent(ex.Guard, want)
 	}
 }
 
@@ -164,7 +165,7 @@ func checkErrSeq(c *Check, p *Prog, name string, d *wfDesc) {
 	for _, it := range d.Sum.Top.Items {
 		switch e := it.(type) {
 		case *Event:
-			if e.Dead || e == found || e.Kind == "rundefers" || e.Seq < d.Read.Seq {
+			if e.Dead || e == found || e.Kind == "rundefers" || e.Kind == "return" || e.Seq < d.Read.Seq {
 				continue
 			}
 			if !S.Implies(S.And(ax, e.Guard), S.Not(found.Guard)) {
